@@ -261,4 +261,53 @@ theorem sanitized_stem_may_be_keyword :
     sanitizeModuleName false (n "class") = n "class" ∧
     getModulePath false (n "Model") (some ([n "my-dir"], n "pet")) = [n "my-dir", n "pet"] := by decide
 
+/-- … and it consists of ASCII characters only, with or without `--treat-dot-as-module`. Python applies
+the NFKC normalisation to every identifier it compiles, the names in `import` statements included, and
+NFKC leaves ASCII text alone (checked against `unicodedata` on all 128 characters in every run): the
+file written under a sanitised stem is the file the import statements that name it look for. -/
+theorem sanitized_stem_ascii (treatDot : Bool) (stem : List Char) :
+    (sanitizeModuleName treatDot stem).all (fun c => decide (c.toNat < 128)) = true :=
+  sanitize_ascii treatDot stem
+
+/-- the micro sign (U+00B5, which NFKC turns into U+03BC) and the ligature U+FB01 do not survive -/
+example : sanitizeModuleName false [Char.ofNat 0xB5, '_', 'u'] = n "__u" ∧
+    sanitizeModuleName false [Char.ofNat 0xFB01, 'x'] = n "_x" := by decide
+
+/-! ### the names of imports ("each use of a foreign model is qualified so that it reaches that import") -/
+
+/-- `__change_from_import` FIRST registers every class of the module in the module's scoped resolver and
+only THEN hands out the names of the imports. For every module — any classes (pairwise different model
+paths `classes.map (·.1)`, names that `get_valid_field_name` leaves alone), any excluded member names,
+any sequence of foreign references `reqs` (resolver keys that are no model paths; repeated keys and
+repeated names allowed) — no import is given the name of a class of the module: a foreign class whose
+short name equals a local class name is always imported `as` something else, so the bare name keeps
+meaning the local class and `module.Name` written in OTHER modules keeps reaching it. -/
+theorem import_names_avoid_local_classes (vn : List Char → List Char) (excl : List (List Char))
+    (classes reqs : List (List Char × List Char)) (names : List (List Char))
+    (hv : ∀ pc ∈ classes, vn pc.2 = pc.2) (hnd : (classes.map (·.1)).Nodup)
+    (hk : ∀ r ∈ reqs, r.1 ∉ classes.map (·.1))
+    (h : importNames vn excl classes reqs = some names) :
+    ∀ nm ∈ names, nm ∉ classes.map (·.2) :=
+  importNames_avoid hv hnd hk h
+
+/-- non-vacuity, on the shape of a real module: `jobs.Job` (refers to the root `Status`), `jobs.Status`,
+`jobs.Step`; one import asking for the name `Status` gets `Status_1` -/
+example :
+    let classes := [(n "#/definitions/jobs.Job", n "Job"), (n "#/definitions/jobs.Status", n "Status"),
+      (n "#/definitions/jobs.Step", n "Step")]
+    let reqs := [(n "./Status#", n "Status")]
+    (∀ pc ∈ classes, id pc.2 = pc.2) ∧ (classes.map (·.1)).Nodup ∧ (∀ r ∈ reqs, r.1 ∉ classes.map (·.1)) ∧
+    importNames id [] classes reqs = some [n "Status_1"] := by decide
+
+/-- Why the order of the two loops matters (kept as a theorem: this is the statement above for the
+MERGED loop, and it is false): when each class is registered only right before its own references are
+served, the import met while `Job` is processed takes the bare name `Status` — the name of the class
+`jobs.Status` that is registered afterwards. -/
+theorem merged_loops_take_local_class_name :
+    importNamesMerged id ⟨[], []⟩
+      [(n "#/definitions/jobs.Job", n "Job", [(n "./Status#", n "Status")]),
+       (n "#/definitions/jobs.Status", n "Status", []),
+       (n "#/definitions/jobs.Step", n "Step", [])] = some [n "Status"] ∧
+    n "Status" ∈ [n "Job", n "Status", n "Step"] := by decide
+
 end Dcg.Props.C12
